@@ -145,6 +145,8 @@ pub enum LibEntry {
 
 #[derive(Clone, Debug)]
 pub enum NativeVal {
+    /// a fresh mutable vector per instantiation of the library
+    IntVector(Vec<i64>),
     Int(i64),
     Sym(String),
     Builtin(String),
@@ -985,6 +987,10 @@ impl Machine {
                     (
                         n,
                         match v {
+                            NativeVal::IntVector(xs) => {
+                                let items = xs.into_iter().map(RV::Int).collect();
+                                self.new_vector(items, true)
+                            }
                             NativeVal::Int(i) => RV::Int(i),
                             NativeVal::Sym(s) => RV::Sym(s),
                             NativeVal::Builtin(b) => RV::Builtin(b),
